@@ -69,19 +69,19 @@ func runDiscreteMixture(cs *EMCase, tr *[]step) error {
 		if err := est.SetData(x, x.Dim()); err != nil {
 			return err
 		}
-		return est.Estimate(nil, pool1)
+		return cs.runOn(func(p threadpool.ThreadPool) error { return est.Estimate(nil, p) })
 	case routeOnData:
 		est, err := se.NewDiscreteMixtureEstimator(w, subs, emEps, emMaxSteps, hook)
 		if err != nil {
 			return fmt.Errorf("harness-construct: %v", err)
 		}
-		return est.EstimateOnData(x, nil, pool1)
+		return cs.runOn(func(p threadpool.ThreadPool) error { return est.EstimateOnData(x, nil, p) })
 	case routePlain:
 		est, err := se.NewMixtureEstimator(w, subs, emEps, emMaxSteps, hook)
 		if err != nil {
 			return fmt.Errorf("harness-construct: %v", err)
 		}
-		return est.EstimateOnData(x, nil, pool1)
+		return cs.runOn(func(p threadpool.ThreadPool) error { return est.EstimateOnData(x, nil, p) })
 	}
 	return fmt.Errorf("harness: unknown route %q", cs.Route)
 }
@@ -95,6 +95,10 @@ type sumHmmCore struct {
 	hmm1, hmm2, hmm3 *vd.Hmm
 	data             ve.HmmDataSet
 	ests             []st.ScalarEstimator
+	// pools with assigned E-step jobs (pool.go)
+	s      *sched
+	assign [][]int
+	step   int
 }
 
 func (o *sumHmmCore) GetBasicHmm() generic.BasicHmm { return o.hmm1 }
@@ -103,6 +107,11 @@ func (o *sumHmmCore) EvaluateLogPdf(p threadpool.ThreadPool) error {
 }
 func (o *sumHmmCore) Swap() { o.hmm1, o.hmm2, o.hmm3 = o.hmm3, o.hmm1, o.hmm2 }
 func (o *sumHmmCore) Step(meta ad.ConstVector, tmp []generic.BaumWelchTmp, p threadpool.ThreadPool) (float64, error) {
+	if o.s != nil && len(o.assign) > 0 {
+		o.s.arm(p, o.assign[o.step%len(o.assign)])
+		o.step++
+		defer o.s.disarm()
+	}
 	return o.hmm1.Hmm.BaumWelchStep(&o.hmm1.Hmm, &o.hmm2.Hmm, o.data, meta, tmp, p)
 }
 func (o *sumHmmCore) Emissions(gamma []ad.DenseFloat64Vector, p threadpool.ThreadPool) error {
@@ -169,12 +178,27 @@ func runSummarizedHmm(cs *EMCase, tr *[]step) error {
 		xs[r] = v
 		nobs += len(rec)
 	}
-	data, err := ve.NewHmmSummarizedDataSet(ad.Float64Type, xs, hmm.NEDists())
-	if err != nil {
-		return err
-	}
-	if data.GetN() != nobs {
-		return fmt.Errorf("HmmSummarizedDataSet.GetN() = %d for %d observations", data.GetN(), nobs)
+	var data ve.HmmDataSet
+	if cs.DataSet == "summarized" {
+		d, err := ve.NewHmmSummarizedDataSet(ad.Float64Type, xs, hmm.NEDists())
+		if err != nil {
+			return err
+		}
+		if d.GetN() != nobs {
+			return fmt.Errorf("HmmSummarizedDataSet.GetN() = %d for %d observations", d.GetN(), nobs)
+		}
+		data = d
+	} else {
+		// as (*HmmEstimator).SetData
+		cxs := make([]ad.ConstVector, len(xs))
+		for i := range xs {
+			cxs[i] = xs[i]
+		}
+		d, err := ve.NewHmmStdDataSet(ad.Float64Type, cxs, hmm.NEDists())
+		if err != nil {
+			return err
+		}
+		data = d
 	}
 	for i, e := range ests {
 		if err := e.SetData(data.GetMappedData(), len(xs)); err != nil {
@@ -197,8 +221,14 @@ func runSummarizedHmm(cs *EMCase, tr *[]step) error {
 	hook := generic.BaumWelchHook{Value: func(b generic.BasicHmm, i int, L, eps float64) {
 		*tr = append(*tr, step{i: i, L: L, hmm: snapHmm(b.(*vd.Hmm), h)})
 	}}
-	return generic.BaumWelchAlgorithm(core, nil, data.GetNRecords(), nData, data.GetNMapped(), hmm.NStates(), hmm.NEDists(), emEps, cs.maxSteps(), pool1, hook,
-		generic.BaumWelchOptimizeEmissions{Value: !cs.FreezeEmissions}, generic.BaumWelchOptimizeTransitions{Value: !cs.FreezeSecond})
+	return cs.runOn(func(p threadpool.ThreadPool) error {
+		if cs.Pool != nil && cs.Pool.Assign != nil {
+			core.data = &gatedHmmData{HmmDataSet: data, s: cs.s}
+			core.s, core.assign = cs.s, cs.Pool.Assign
+		}
+		return generic.BaumWelchAlgorithm(core, nil, data.GetNRecords(), nData, data.GetNMapped(), hmm.NStates(), hmm.NEDists(), emEps, cs.maxSteps(), p, hook,
+			generic.BaumWelchOptimizeEmissions{Value: !cs.FreezeEmissions}, generic.BaumWelchOptimizeTransitions{Value: !cs.FreezeSecond})
+	})
 }
 
 /* differential: summarised run against the standard estimator
